@@ -304,20 +304,49 @@ func runC01(c *Ctx) {
 				n++
 				c.Analysed(fnName(f))
 				parsers := 0
+				// parser calls in f itself, and in same-package helpers f hands the request text to
+				type site struct {
+					fn  *ssa.Function
+					ci  ssa.CallInstruction
+					arg ssa.Value
+					nm  string
+				}
+				var sites []site
+				collect := func(g *ssa.Function) {
+					for _, ci := range callsIn(g) {
+						nm := calleeName(ci.Common())
+						if strings.HasSuffix(nm, "prototext.Unmarshal") || nm == "cli.ParseSubscribeProto" {
+							sites = append(sites, site{g, ci, ci.Common().Args[0], nm})
+						}
+					}
+				}
+				collect(f)
+				fed := map[*ssa.Parameter]bool{} // helper parameters that receive the request text
 				for _, ci := range callsIn(f) {
-					nm := calleeName(ci.Common())
-					var arg ssa.Value
-					switch {
-					case strings.HasSuffix(nm, "prototext.Unmarshal"):
-						arg = ci.Common().Args[0]
-					case nm == "cli.ParseSubscribeProto":
-						arg = ci.Common().Args[0]
-					default:
+					h := staticCallee(ci.Common())
+					if h == nil || h.Pkg != f.Pkg || h == prf || len(h.Blocks) == 0 {
 						continue
 					}
+					any := false
+					for i, a := range ci.Common().Args {
+						if i < len(h.Params) && dependsOn(a, call, 0) {
+							fed[h.Params[i]] = true
+							any = true
+						}
+					}
+					if any {
+						collect(h)
+					}
+				}
+				for _, s := range sites {
 					parsers++
-					ok := dependsOn(arg, call, 0)
-					c.Check(ok, "C01.cli", fnName(f), "request parser "+nm+" is fed from protoRequestFromFlags", P.Pos(ci.Pos()), "argument "+Expr(arg))
+					ok := false
+					if s.fn == f {
+						ok = dependsOn(s.arg, call, 0)
+					} else {
+						ok = dependsOnParam(s.arg, fed, 0)
+					}
+					c.Check(ok, "C01.cli", fnName(f), "request parser "+s.nm+" is fed from protoRequestFromFlags", P.Pos(s.ci.Pos()), "argument "+Expr(s.arg)+" in "+fnName(s.fn))
 				}
 				c.Check(parsers >= 1, "C01.cli", fnName(f), "has a request parser", P.Pos(f.Pos()), fmt.Sprintf("%d parser calls", parsers))
 			}
@@ -539,6 +568,37 @@ func dependsOn(v ssa.Value, c *ssa.Call, d int) bool {
 		if al, ok := x.X.(*ssa.Alloc); ok {
 			if s := singleStore(al); s != nil {
 				return dependsOn(s, c, d+1)
+			}
+		}
+	}
+	return false
+}
+
+// dependsOnParam: v is computed from one of the given parameters.
+func dependsOnParam(v ssa.Value, ps map[*ssa.Parameter]bool, d int) bool {
+	if d > 12 || v == nil {
+		return false
+	}
+	switch x := v.(type) {
+	case *ssa.Parameter:
+		return ps[x]
+	case *ssa.Convert:
+		return dependsOnParam(x.X, ps, d+1)
+	case *ssa.ChangeType:
+		return dependsOnParam(x.X, ps, d+1)
+	case *ssa.MakeInterface:
+		return dependsOnParam(x.X, ps, d+1)
+	case *ssa.Phi:
+		for _, e := range x.Edges {
+			if !dependsOnParam(e, ps, d+1) {
+				return false
+			}
+		}
+		return len(x.Edges) > 0
+	case *ssa.UnOp:
+		if al, ok := x.X.(*ssa.Alloc); ok {
+			if s := singleStore(al); s != nil {
+				return dependsOnParam(s, ps, d+1)
 			}
 		}
 	}
